@@ -69,7 +69,7 @@ func init() {
 		mc.Register(&mc.ScenarioDef{Scn: acct, Monitors: []mc.Monitor{monC03()}})
 	}
 	registerCheck(&CheckDef{Prop: "C01", Level: "model_checking", Technique: "explicit-state BFS over the real ClusterContext (bounded op sequences, canonical-state dedup)",
-		Quick:          []Run{{Scenario: "cap-basic-fair", Depth: 6, MapModes: []int{1}}, {Scenario: "cap-basic-binpacking", Depth: 6, MapModes: []int{1}}, {Scenario: "gang-cap-Soft", Depth: 6, MapModes: []int{1}}, {Scenario: "reserve-cap", Depth: 6, MapModes: []int{1}}, {Scenario: "gang-cap-drain", Depth: 7, MapModes: []int{1}}, {Scenario: "gang-sparse-cap", Depth: 6, MapModes: []int{1}}},
+		Quick:          []Run{{Scenario: "cap-basic-fair", Depth: 6, MapModes: []int{1}}, {Scenario: "cap-basic-binpacking", Depth: 6, MapModes: []int{1}}, {Scenario: "gang-cap-Soft", Depth: 6, MapModes: []int{1}}, {Scenario: "reserve-cap", Depth: 7, MapModes: []int{1}}, {Scenario: "gang-cap-drain", Depth: 7, MapModes: []int{1}}, {Scenario: "gang-sparse-cap", Depth: 6, MapModes: []int{1}}},
 		Thorough:       []Run{{Scenario: "gang-cap-drain", Depth: 9, MapModes: []int{1, 2}}, {Scenario: "gang-sparse-cap", Depth: 8, MapModes: []int{1}}, {Scenario: "cap-basic-fair", Depth: 8, MapModes: []int{1, 2}}, {Scenario: "cap-basic-binpacking", Depth: 8, MapModes: []int{1}}, {Scenario: "gang-cap-Soft", Depth: 8, MapModes: []int{1, 2}}, {Scenario: "reserve-cap", Depth: 8, MapModes: []int{1, 2}}},
 		QuickBudget:    150 * time.Second,
 		ThoroughBudget: 12 * time.Minute,
